@@ -93,6 +93,10 @@ def work(case):
             return dict(signature=sig, step=k, what=what, detail=detail)
         if fail is None and dup:
             fail = bad("duplicate-active-id", "two active runs of one pattern share an identifier")
+        dead = [r for r in dec.all_runs() if r.is_halted() or r.is_complete()]
+        if fail is None and dead:
+            fail = bad("finished-still-active", "run %s has %s but is still in the active set (never announced, never remembered)"
+                       % (dead[0].run_id, "halted" if dead[0].is_halted() else "completed"))
         for key, (i0, h0) in before.items():
             if fail is not None:
                 break
